@@ -178,7 +178,9 @@ def write_archive(members, layout=None):
     if folders:
         h += b"\x04"
         h += b"\x06" + number(len(junk)) + number(len(packed_streams)) + b"\x09" + b"".join(number(len(p)) for p in packed_streams)
-        if layout.get("pack_crc"):
+        if layout.get("pack_crc") == "partial":
+            h += b"\x0a" + digests([zlib.crc32(p) if i % 2 == 0 else None for i, p in enumerate(packed_streams)])
+        elif layout.get("pack_crc"):
             h += b"\x0a" + digests([zlib.crc32(p) for p in packed_streams])
         h += b"\x00"
         h += b"\x07\x0b" + number(len(folders)) + b"\x00" + b"".join(folder_bytes(f[0]) for f in folders)
